@@ -197,7 +197,8 @@ pub fn all_fields(file: &[u8]) -> Vec<(usize, String, u32)> {
 }
 
 fn boundary_values(current: u32, bound: u32) -> Vec<u32> {
-    let mut v = vec![0, 1, 2, 7, 100, bound.wrapping_sub(1), bound, bound.wrapping_add(1), 1 << 31, u32::MAX - 1, u32::MAX];
+    // (2^32/28 and 2^32/36: where count x entry size wraps a 32-bit product)
+    let mut v = vec![0, 1, 2, 7, 100, bound.wrapping_sub(1), bound, bound.wrapping_add(1), 1 << 31, u32::MAX - 1, u32::MAX, 153_391_688, 153_391_689, 153_391_690, 119_304_646, 119_304_647, 119_304_648];
     v.retain(|x| *x != current);
     v.sort_unstable();
     v.dedup();
